@@ -1121,10 +1121,18 @@ class StrategyBase(Node):
         # now convert to unstacked series, dropping nans along the way
         trades = trades[trades != 0].unstack().dropna()
 
-        # Adjust prices for bid/offer paid if needed
+        # Adjust prices for bid/offer paid if needed. The amounts paid carry
+        # the multiplier and, like positions, add up over same-named
+        # securities held in several sub-strategies
         if self._bidoffer_set:
-            bidoffer = pd.DataFrame({x.name: x.bidoffers_paid for x in self.securities}).unstack()
-            prc += bidoffer / trades
+            bidoffer = pd.DataFrame()
+            for x in self.securities:
+                paid_per_unit = x.bidoffers_paid / x.multiplier
+                if x.name in bidoffer.columns:
+                    bidoffer[x.name] += paid_per_unit
+                else:
+                    bidoffer[x.name] = paid_per_unit
+            prc += bidoffer.unstack() / trades
 
         res = pd.DataFrame({"price": prc, "quantity": trades}).dropna(subset=["quantity"])
 
